@@ -83,7 +83,6 @@ var c19RelSpellings = []c19RelSpelling{
 	{"/S/c19root", "../c19root"},
 	{"/S/c19root", "../c19root/"},
 	{"/S/c19root", ".././c19root/."},
-	{"/S/c19root", ""}, // filepath.Clean("") is "."
 	{"/S", "c19root"},
 	{"/S", "./c19root"},
 	{"/S", "c19root/"},
@@ -748,7 +747,7 @@ func c19GenSpelling(r *Rand) string {
 // sometimes one that leads elsewhere (missing).
 func c19GenRelSpelling(r *Rand, kind string, rels []string) c19RelSpelling {
 	if r.Chance(8) {
-		return c19RelSpelling{"/S", r.Pick([]string{"nope", "c19root/nope/..//nope", "..c19root", "c19root/.."})}
+		return c19RelSpelling{"/S", r.Pick([]string{"nope", "c19root/nope/..//nope", "..c19root", ".c19root"})}
 	}
 	all := c19RelSpellingsFor(rels)
 	if kind != "dir" {
@@ -875,6 +874,7 @@ func genC19(g *Gen, n int) {
 		g.Emit("dirhash.dirfilesrel "+hx(rs.cwd)+" "+hx(rs.dir)+" dir "+hx("m@v1.0.0")+" "+hxList(rels), true, "boundary", "dirfilesrel")
 		g.Emit("dirhash.hashdirrel "+hx(rs.cwd)+" "+hx(rs.dir)+" dir "+hx("m@v1.0.0")+" "+hxList(rels)+" "+hxList([]string{"x", "", "y", "z", "w"}), true, "boundary", "hashdirrel")
 	}
+	g.Emit("dirhash.dirfilesrel "+hx("/S/c19root")+" - dir "+hx("m@v1.0.0")+" "+hxList([]string{"a.go", ".a.go", ".sub/b.go"}), true, "boundary", "dirfilesrel")
 	g.Emit("dirhash.sha256 -", true, "boundary")
 	g.Emit("dirhash.sha256 "+hx("abc"), true, "boundary")
 	for g.st.Ops < n {
@@ -928,6 +928,11 @@ func genC19(g *Gen, n int) {
 			}
 			if g.Chance(50) { // the same directory named relative to a working directory
 				rs := c19GenRelSpelling(g.Rand, kind, rels)
+				if kind == "dir" && g.Chance(5) {
+					// DirFiles cleans "" to "."; not used with HashDir, whose filepath.Join("", "/x") is the
+					// absolute path /x ("" names no directory, os.Stat("") fails)
+					rs = c19RelSpelling{"/S/c19root", ""}
+				}
 				g.Emit("dirhash.dirfilesrel "+hx(rs.cwd)+" "+hx(rs.dir)+" "+kind+" "+hx(pfx)+" "+hxList(rels), len(rels) >= 1 || kind != "dir", "dirfilesrel", c19RelTag(rs))
 			}
 		case 13, 14, 15:
@@ -1210,7 +1215,9 @@ func c19OracleSpellings(g *Gen, scratch, dir, prefix, hz string, errz error, rep
 	// the same for names of the directory relative to a working directory (".", "../c19root" from inside
 	// it, "c19root" from its parent, "sub/.." ...): again only spellings that the operating system
 	// confirms to denote the extraction directory
+	// (counted as one oracle case per tree, so that the sweep does not use up the case budget of the run)
 	ok := true
+	counted := false
 	for _, rs := range c19RelSpellingsFor(rels) {
 		if !ok {
 			break
@@ -1220,7 +1227,10 @@ func c19OracleSpellings(g *Gen, scratch, dir, prefix, hz string, errz error, rep
 			if err != nil || !os.SameFile(ref, fi) {
 				return
 			}
-			g.Case("zip-dir-agree-relative-dir")
+			if !counted {
+				counted = true
+				g.Case("zip-dir-agree-relative-dir")
+			}
 			info := fmt.Sprintf("directory named %q from the working directory %q (same file as %q)", rs.dir, rs.cwd, "/S/c19root")
 			replayAt := "dirhash.hashdirrel " + hx(rs.cwd) + " " + hx(rs.dir) + " dir " + hx(prefix) + " " + hxList(rels) + " " + hxList(contents)
 			replayFiles := "dirhash.dirfilesrel " + hx(rs.cwd) + " " + hx(rs.dir) + " dir " + hx(prefix) + " " + hxList(rels)
@@ -1287,17 +1297,17 @@ func c19OracleZipDir(g *Gen) {
 		return
 	}
 	prefix := m.Path + "@" + m.Version
-	// every spelling of the extraction directory denotes the same directory (os.SameFile), so DirFiles
-	// must list the same names and HashDir must equal HashZip for each of them, without error or panic.
-	if !c19OracleSpellings(g, scratch, dir, prefix, hz, errz, replay2, rels, contents) {
-		return
-	}
 	for _, p := range []string{prefix, prefix + "/"} {
 		hd, errd := dirhash.HashDir(dir, p, dirhash.Hash1)
 		if errz != nil || errd != nil || hz != hd {
 			g.Fail("HashZip of a module zip differs from HashDir of the directory it extracts to", fmt.Sprintf("zip=%q,%v dir=%q,%v prefix=%q fromDir=%v", hz, errz, hd, errd, p, fromDir), replay, replay2)
 			return
 		}
+	}
+	// every spelling of the extraction directory denotes the same directory (os.SameFile), so DirFiles
+	// must list the same names and HashDir must equal HashZip for each of them, without error or panic.
+	if !c19OracleSpellings(g, scratch, dir, prefix, hz, errz, replay2, rels, contents) {
+		return
 	}
 	// and both equal the documented formula over the (prefix/rel, content) pairs
 	if !fromDir {
